@@ -145,7 +145,7 @@ let print_index_lines (prefix_ids : string) (prefix_ix : string) (ix : oindex) (
                   (String.concat " " (List.map (fun (k, oid) -> tok_of_key k ^ ":" ^ string_of_n oid) l))))
     ix.oi_fx
 
-let dir_name (c : cfg) = if c.lower then "shape._rec" else "shape.Rec"
+let dir_name (c : cfg) = string_of_bytes (Model.dir_name c.lower (bytes_of_string "shape.Rec"))
 
 let print_fs (c : cfg) (d : disk) =
   emit "r ok";
@@ -381,7 +381,18 @@ let run_history (lines : string list) =
   in
   go lines
 
+(* snake mode: one input string per line (hex), prints "<hex in> <hex out>" of the model's camel_to_snake *)
+let snake_mode (path : string) =
+  let ic = open_in path in
+  (try
+     while true do
+       let l = String.trim (input_line ic) in
+       print_endline (l ^ " " ^ hex_of_bytes (camel_to_snake (bytes_of_hex l)))
+     done
+   with End_of_file -> ())
+
 let () =
+  if Array.length Sys.argv > 2 && Sys.argv.(1) = "-snake" then (snake_mode Sys.argv.(2); exit 0);
   let ic = if Array.length Sys.argv > 1 then open_in Sys.argv.(1) else stdin in
   let cur = ref [] in
   let flush_hist () =
